@@ -379,6 +379,10 @@ def run(rep):
              'twin too, or the class writer routes interfaces overriding it to the Python '
              '__adapt__ (the C twin inlines the default implementation; shared with C14 '
              'R14.8)', floor=1)
+    rep.rule('F14', 'equality never orders, in either implementation: the Python __eq__/'
+             '__ne__ evaluate no ordering comparison of the keys (the C twin compares the '
+             'components with the caller\'s operator or Py_EQ), so unequal keys that are '
+             'not orderable give the same answer on both (shared with C12 R12.6)', floor=3)
     rep.decline('equality of results, exception points and subsequent '
                 'behaviour for arbitrary API programs (that is differential '
                 'execution; only the structural core is decided)')
@@ -387,6 +391,8 @@ def run(rep):
     lookup_signatures(rep, u, amod, 'F1')
     from . import csem as _csem13
     _csem13.adapt_dispatch(rep, 'F13', u, imod)
+    from .C12 import eq_no_ordering
+    eq_no_ordering(rep, 'F14', imod, u)
     lb = find_def(amod, 'LookupBase')
     vb = find_def(amod, 'VerifyingBase')
     lms = methods_of(lb)
